@@ -1,5 +1,6 @@
 import RvModel.Prelude
 import RvModel.Gen.Defs
+import RvModel.Hand.Stick
 /-!
   Hand.StickConj — hand model of the conjugate pair `StickBreaking` (prior) / `StickBreakingDiscrete` (likelihood over
   `usize`) of `src/experimental/stick_breaking_process/stick_breaking.rs`, and of the statistic
@@ -227,5 +228,34 @@ def f {α : Type} [RealLike α] (self : SB α) (w : List α) : Option α := (lnF
 /-- `weights.iter().zip(counts).map(|(w, c)| c as f64 * w.ln()).sum()` for a weight vector at least as long as `counts` -/
 def lnFStatOfWeights {α : Type} [RealLike α] (ws : List α) (counts : List Nat) : α :=
   sumRust ((ws.zip counts).map (fun (wc : α × Nat) => ofNatR wc.2 * ln wc.1))
+
+/-! ### `StickBreakingDiscrete` on the lazily realised `StickSequence` (state machine of `Hand.Stick`)
+
+  The sequence is realised on demand: `weights(n)` / `weight(n)` first extend the stored `ccdf` vector (`ensure_breaks`),
+  so the VALUE of `ln_f_stat` must not depend on how far the sequence happened to be realised when it is called. -/
+
+/-- `StickBreakingDiscrete::ln_f_stat` (sbd_stat.rs:113-121): `sticks.weights(counts.len())` — which realises `counts.len()` breaks and
+    returns ALL stored weights — zipped with the counts -/
+def sbdLnFStat {α : Type} [RealLike α] (breaks : Nat → α) (s : Stick.S α) (counts : List Nat) : α × Stick.S α :=
+  let s' := Stick.ensureBreaks breaks counts.length s
+  (lnFStatOfWeights (Stick.weightsOf s'.ccdf) counts, s')
+
+/-- `StickBreakingDiscrete::ln_f` (sbd.rs:213-228): `sticks.weight(n).ln()`, `weight(n) = ccdf[n] - ccdf[n+1]` after `ensure_breaks(n+1)` -/
+def sbdLnF {α : Type} [RealLike α] (breaks : Nat → α) (s : Stick.S α) (x : Nat) : α × Stick.S α :=
+  let s' := Stick.ensureBreaks breaks (x + 1) s
+  (ln (s'.ccdf.getD x RealLike.nan - s'.ccdf.getD (x + 1) RealLike.nan), s')
+
+/-- the pointwise log-densities of a data set, evaluated in order on one object -/
+def sbdLnFs {α : Type} [RealLike α] (breaks : Nat → α) : Stick.S α → List Nat → List α × Stick.S α
+  | s, [] => ([], s)
+  | s, x :: xs =>
+    let r := sbdLnF breaks s x
+    let rest := sbdLnFs breaks r.2 xs
+    (r.1 :: rest.1, rest.2)
+
+/-- `xs.iter().map(|x| sbd.ln_f(x)).sum::<f64>()` -/
+def sbdSumLnF {α : Type} [RealLike α] (breaks : Nat → α) (s : Stick.S α) (xs : List Nat) : α × Stick.S α :=
+  let r := sbdLnFs breaks s xs
+  (sumRust r.1, r.2)
 
 end Hand.StickConj
